@@ -1502,6 +1502,10 @@ func ParseByteRange(byteRange []byte, contentLength int) (startPos, endPos int, 
 		if contentLength <= 0 {
 			return 0, 0, fmt.Errorf("byte range %q is invalid for empty content", byteRange)
 		}
+		if v == 0 {
+			// A suffix range of zero bytes selects nothing: unsatisfiable (RFC 9110 section 14.1.3).
+			return 0, 0, fmt.Errorf("byte range %q has zero suffix length", byteRange)
+		}
 		startPos := max(contentLength-v, 0)
 		return startPos, contentLength - 1, nil
 	}
